@@ -1,5 +1,6 @@
 mod term;
 mod c31;
+mod c05;
 
 fn main() {
     let args: Vec<String> = std::env::args().collect();
@@ -14,6 +15,7 @@ fn main() {
     let _extra = &args[5..];
     match prop {
         "C31" => c31::run(seed, n, &mut out),
+        "C05" => c05::run(seed, n, &mut out),
         _ => { eprintln!("unknown property {}", prop); std::process::exit(2); }
     }
 }
